@@ -1175,7 +1175,9 @@ class FileBuilder:
         # Return False in cases where _build_file raises
         filename = operation.filename
         if (self._new_cache.has_norm_cased_file(os.path.normcase(filename)) or
-                self._simple_operation_executor.is_cache_file(filename)):
+                self._simple_operation_executor.is_cache_file(filename) or
+                self._simple_operation_executor.is_dir(
+                    filename, created_files)):
             return False
         try:
             self._dirs_to_make(os.path.dirname(filename), created_files)
